@@ -26,6 +26,10 @@ def scale(  # pylint: disable=dangerous-default-value  # always replaced by stat
     """
 
     data = numpy.array(data)
+    if data.dtype.kind in "iub":
+        # Means and sums of squares of integers are not integers (and squares
+        # overflow narrow integer types).
+        data = data.astype(numpy.float64)
 
     if "ddof" not in _state:
         _state["ddof"] = ddof
